@@ -146,6 +146,15 @@ def run_driver(gopt, args, trace):
             info["hang"] = line
         if line.startswith("FUZZFAIL"):
             info.setdefault("fuzzfail", []).append(line)
+    if p.returncode not in (0, 3) and "fatal error:" in p.stdout:
+        # the Go runtime killed the driver (stack overflow, concurrent map access ...). If the same command dies the same
+        # way again it is the library under test that does it (the drivers are deterministic): a panic-class violation.
+        p2 = subprocess.run([gopt] + args + ["-out", trace + ".again"], stdout=subprocess.PIPE, stderr=subprocess.STDOUT, text=True, env=DRIVER_ENV)
+        if p2.returncode not in (0, 3) and "fatal error:" in p2.stdout:
+            what = [l for l in p2.stdout.splitlines() if l.startswith("fatal error:")][0]
+            frames = [l.strip() for l in p2.stdout.splitlines() if "go-getoptions" in l and "verifharness" not in l][:6]
+            info["crash"] = {"command": " ".join(args), "what": what, "library_frames": frames}
+            return info
     if p.returncode not in (0, 3):
         raise Broken("driver failed (%d): %s\n%s" % (p.returncode, " ".join(args), p.stdout[-3000:]))
     return info
@@ -199,6 +208,8 @@ def drive_and_validate(work, gopt, jobs, twice=False):
                 info["cases"] += inf["cases"]
                 info["nontrivial"] += inf["nontrivial"]
                 info["hang"] = info["hang"] or inf["hang"]
+                if inf.get("crash"):
+                    info.setdefault("crashes", []).append(inf["crash"])
                 info.setdefault("fuzzfail", []).extend(inf.get("fuzzfail", []))
                 for k2, v2 in inf["stats"].items():
                     info["stats"][k2] = info["stats"].get(k2, 0) + v2
@@ -284,6 +295,8 @@ def check(prop, tier, seed, work, replay, t0):
     for r in results:
         if r["info"]["hang"]:
             violations.append(dict(kind="hang", trace=r["trace"], cid=None, fields=["hang"], exp=None, job=r["name"]))
+        for cr in r["info"].get("crashes", []):
+            violations.append(dict(kind="crash", trace=r["trace"], cid=None, fields=["panic"], exp=None, job=r["name"], crash=cr))
         for line in r["info"].get("fuzzfail", []):
             import re as _re
             m = _re.search(r'kind="([^"]*)" file=(\S+)', line)
@@ -329,6 +342,9 @@ def check(prop, tier, seed, work, replay, t0):
             rec = json.load(open(v["file"]))
             d, c = rec["def"], rec["case"]
             desc = describe(d, c)
+        elif v.get("crash"):
+            d = c = None
+            desc = {"process_crash": v["crash"]}
         elif v["cid"] is None:
             d = c = None
             desc = {"hang": v["job"]}
